@@ -35,7 +35,7 @@ import (
 
 type failure struct {
 	kind, op, want, got string
-	line               int
+	line                int
 }
 
 type judge struct {
